@@ -104,7 +104,8 @@ def scenarios_for(prop, tier, rng):
     if prop == "C16":
         cases, r = tlc_cases("shape", 0, f"{prop}-gen"); gens.append(r)
         if not thorough:
-            rng.shuffle(cases); cases = cases[:200]
+            rng.shuffle(cases)
+            cases = [c for c in cases if c["shape"]["nspfx"] != "jcmd"][:60] + [c for c in cases if c["shape"]["nspfx"] == "jcmd"][:200]
         sc = agentgen.shape_scenarios(cases, prop)
         hc, r2 = tlc_cases("shapehist", 1 if thorough else 0, f"{prop}-gen-hist"); gens.append(r2)
         sh = agentgen.shapehist_scenarios(hc, 49, prop)
